@@ -8,6 +8,7 @@ import (
 	"fmt"
 	"os"
 	"path/filepath"
+	"regexp"
 	"runtime/debug"
 	"sort"
 	"strconv"
@@ -49,8 +50,6 @@ var borrowed = map[string][]struct {
 	from  string
 	rules []string
 }{
-	// a point that is routed to the wrong archive or dropped is not the last value written to its slot
-	"C01": {{"C03", []string{"C03.R1", "C03.R4"}}, {"C06", []string{"C06.R6"}}},
 	// reading the same series as the reference reader includes the fetch contract
 	"C06": {{"C04", []string{"C04.R2", "C04.R3", "C04.R4"}}},
 	// generate -fill=false must not reach the writer with an empty list (index out of range)
@@ -75,6 +74,32 @@ var borrowed = map[string][]struct {
 	"C15": {{"C07", []string{"C07.R4"}}},
 	// remote sum goes through the /sum handler
 	"C10": {{"C17", []string{"C17.R4"}}, {"C12", []string{"C12.R1", "C12.R2"}}},
+	// a point that is routed to the wrong archive or dropped is not the last value written to its slot; the age
+	// partition of a batch decides which of its points reach an archive at all
+	"C01": {{"C03", []string{"C03.R1", "C03.R3", "C03.R4"}}, {"C06", []string{"C06.R6"}}},
+	// the worker that opens a file closes it before it returns: a handle (and its lock) kept until the other workers
+	// are done is hold-and-wait between two overlapping sums
+	"C17": {{"C13", []string{"C13.R6"}}},
+	// the window of a remote view is printed by the client and parsed back by the server
+	"C18": {{"C19", []string{"C19.R2"}}, {"C12", []string{"C12.R2~^(readWhisperFile|readWhisperFileRaw):"}}},
+}
+
+func init() {
+	add := func(p, from string, rules ...string) {
+		borrowed[p] = append(borrowed[p], struct {
+			from  string
+			rules []string
+		}{from, rules})
+	}
+	// the remote source of copy and diff is requested with the query the handler reads back
+	add("C08", "C12", "C12.R2~^(readWhisperFile|globFiles):")
+	add("C09", "C12", "C12.R2~^(readWhisperFile|globFiles):")
+	add("C11", "C12", "C12.R2~^(sumWhisperFile|globItems):")
+	// the listing shows stored values and slot times as they are
+	add("C09", "C18", "C18.R1")
+	// a layout that does not match is refused by sum; copy and sum-copy write every selected archive
+	add("C16", "C10", "C10.R2")
+	add("C16", "C08", "C08.R9~every-archive")
 }
 
 func init() {
@@ -102,8 +127,15 @@ func borrowRules(w *World, r *Report, from string, rules ...string) {
 		}()
 		run(w, sub)
 	}()
+	// "Cxx.Rn~regexp" borrows only the obligations of the rule whose construct key matches (the part of the rule
+	// this property depends on)
 	want := map[string]bool{}
+	filter := map[string]*regexp.Regexp{}
 	for _, id := range rules {
+		if i := strings.Index(id, "~"); i >= 0 {
+			filter[id[:i]] = regexp.MustCompile(id[i+1:])
+			id = id[:i]
+		}
 		want[id] = true
 	}
 	have := map[string]bool{}
@@ -118,6 +150,9 @@ func borrowRules(w *World, r *Report, from string, rules ...string) {
 		}
 	}
 	for _, o := range sub.Obligs {
+		if re := filter[o.Rule]; re != nil && !re.MatchString(o.Key) {
+			continue
+		}
 		if (want[o.Rule] || o.Rule == "G.panic") && !have[o.Rule+"|"+o.Key] {
 			r.add(o.Rule, o.Key, o.Pos, o.Verdict, o.NonTrivial, o.Detail, o.Witness...)
 		}
